@@ -240,6 +240,9 @@ carquet_status_t carquet_row_group_writer_finalize(
 
     int64_t current_offset = writer->file_offset;
 
+    /* A finalize that is retried (after a failed write) starts its total again */
+    writer->total_byte_size = 0;
+
     /* Finalize each column and append to row group buffer */
     for (int i = 0; i < writer->num_columns; i++) {
         const uint8_t* col_data;
@@ -270,7 +273,9 @@ carquet_status_t carquet_row_group_writer_finalize(
         }
 
         current_offset += col_size;
-        writer->total_byte_size += col_size;
+        /* RowGroup.total_byte_size: "total byte size of all the uncompressed column
+         * data in this row group" */
+        writer->total_byte_size += uncompressed_size;
     }
 
     if (data) *data = writer->row_group_buffer.data;
